@@ -49,6 +49,13 @@ Theorem C12_who_channel_partial : forall s c nick viewer ch co,
   outs (process_who cfg i (without ch s) c ch) = Some [(i, srv cfg (rpl_endofwho (client_name c) ch))].
 Proof. exact (who_channel_hides cfg i). Qed.
 
+(* WHO with ANY mask - wildcards, nicknames, other channels, the secret channel's own name: an
+   outsider gets the same answer as in the world without the secret channel *)
+Theorem C12_who_any_mask_partial : forall s c nick ch co mask,
+  c_nick c = Some nick -> chans s !! ch = Some co -> cm_secret (ch_modes co) = true -> nick ∉ dom (ch_users co) ->
+  outs (process_who cfg i (without ch s) c mask) = outs (process_who cfg i s c mask).
+Proof. exact (who_hides cfg i). Qed.
+
 (* WHOIS never names a secret channel: every entry of its channel list comes from a non-secret
    channel of the user's membership set - whoever asks *)
 Theorem C12_whois_never_lists_secret_partial : forall s c n u e,
@@ -83,6 +90,7 @@ Print Assumptions C12_list_all_partial.
 Print Assumptions C12_names_no_members_partial.
 Print Assumptions C12_names_explicit_refuted.
 Print Assumptions C12_who_channel_partial.
+Print Assumptions C12_who_any_mask_partial.
 Print Assumptions C12_whois_never_lists_secret_partial.
 Print Assumptions C12_invisible_hidden_partial.
 Print Assumptions C12_invisible_not_in_names_partial.
